@@ -146,6 +146,9 @@ class Effects:
         return set()
 
     def _ret_origins(self, callee, call, fn, recv, depth):
+        if any(("lru_cache" in d or d.endswith("cache") or "cached_property" in d or "memoize" in d) for d in callee.decorators):
+            # a memoised function hands the SAME object to every caller
+            return {("global", callee.qualname + "<memoised result>")}
         s = self.summ.get(callee.qualname)
         if s is None:
             return set()
